@@ -235,6 +235,13 @@ func (s *sim) node(name string) (*NodeSpec, error) {
 
 func (s *sim) step(st Step) error {
 	w := s.w
+	if len(st.Faults) > 0 {
+		w.ClearFaults()
+		for _, f := range st.Faults {
+			w.AddFault(world.Fault{Actor: f.Actor, Verb: f.Verb, Kind: f.Kind, Name: f.Name, Sub: f.Sub, Nth: f.Nth, Err: f.Err})
+		}
+		defer w.ClearFaults()
+	}
 	switch st.A {
 	case "Method":
 		return s.runMethod(st.Method, st.During)
